@@ -127,11 +127,12 @@ def pair_cover(a, tags):
     for (o, i, bo, bi) in ((L1, L2, b1, b2), (L2, L1, b2, b1)):
         ivo = T.mk('iv', o)
         full_outer = bo[1] == '<' and T.is_int(bo[2], 0) and bo[3] == 1
+        # inner: j from 0 while j < i  (the outer loop may start at 1: index 0 has no partner below it)
+        if bo[1] == '<' and (T.is_int(bo[2], 0) or T.is_int(bo[2], 1)) and bo[3] == 1 and \
+                bi[1] == '<' and T.is_int(bi[2], 0) and bi[0] == ivo and bi[3] == 1:
+            return True
         if not full_outer:
             continue
-        # inner: j from 0 while j < i
-        if bi[1] == '<' and T.is_int(bi[2], 0) and bi[0] == ivo and bi[3] == 1:
-            return True
         # inner: j from i+1 while j < N
         ini = T.node(bi[2]) if bi[2] is not None else None
         if bi[1] == '<' and bi[0] == bo[0] and ini is not None and ini[0] == 'op' and ini[1] == '+' and set((ini[2], ini[3])) == set((ivo, T.int(1))) and bi[3] == 1:
